@@ -1,5 +1,5 @@
 CONSTANTS
-  MaxSize = 12
+  MaxSize = 13
   Prof <- ProfFault
   MathTable <- NoTable
 INIT GInit
